@@ -187,9 +187,7 @@ def check(case, obs):
             out.append((key or ("answer/" + nm), "%s answered %s: %s" % (what, json_short(ans), msg)))
 
         if ans[0] == "err":
-            if False:
-                pass
-            elif nm == "is_face_on_border_v" and frozenset(a) not in B.fid:
+            if nm == "is_face_on_border_v" and frozenset(a) not in B.fid:
                 pass   # not a face: nothing promised
             else:
                 bad("raised", key="raises/" + nm)
